@@ -104,6 +104,10 @@ func (t *SecureTrie) Prove(key []byte, fromLevel uint, proofDb aquadb.Putter) er
 // proof contains invalid trie nodes or the wrong value.
 func VerifyProof(rootHash common.Hash, key []byte, proofDb DatabaseReader) (value []byte, err error, nodes int) {
 	key = keybytesToHex(key)
+	if rootHash == emptyRoot {
+		// The empty trie has no nodes: Prove returns an empty proof and every key is absent.
+		return nil, nil, 0
+	}
 	wantHash := rootHash
 	for i := 0; ; i++ {
 		buf, _ := proofDb.Get(wantHash[:])
